@@ -22,6 +22,8 @@ Hold(m, q) == [Act("hold-send") EXCEPT !.kind = m, !.q = q]
 \* the last prefix leaves the Return of answer 2 (a new capability in its result, the peer has already finished the question with
 \* releaseResultCaps) inside the transport's send while the hostile message arrives; the driver lets it go afterwards
 Prefixes == { <<Boot, Call1, Fin(2, TRUE), Hold("return", 2), Ret1("ok-newcap")>>,
+              \* an export was created and released again: its id is inside the table but names nothing
+              <<Boot, Call1, Ret1("ok-newcap"), Fin(2, TRUE)>>,
               <<>>, <<Boot>>, <<Boot, Call1>>, <<Boot, Call1, Ret1("ok-newcap")>>, <<Boot, Call1c, Ret1("ok-nocap"), Fin(2, FALSE)>>,
               <<LBoot, PRetBoot>>, <<LBoot, PRetBoot, LCall(101)>>, <<Boot, LBoot, PRetBoot, Call1>> }
 
@@ -49,7 +51,10 @@ Hostiles == { H("call-unknown-export", 7, 0 - 1, 77), H("call-unknown-answer", 7
               \* Returns the connection did not ask for / cannot parse, carrying capabilities
               H("return-unknown-question-with-cap", 0 - 1, 0 - 1, 77), H("return-cap-then-bad-cap", 0 - 1, 0 - 1, 77),
               \* Release of an export the peer holds no reference to (the one a Return in flight introduces)
-              H("release-inflight-result-export", 2, 0 - 1, 0) }
+              H("release-inflight-result-export", 2, 0 - 1, 0),
+              \* descriptors / targets naming an export id that was in use and has been released (ids 1, 2)
+              H("call-bad-cap-receiverHosted", 7, 1, 1), H("call-bad-cap-receiverHosted", 7, 0 - 1, 2), H("call-unknown-export", 7, 0 - 1, 1),
+              H("release-unknown", 0 - 1, 0 - 1, 1) }
 
 Probe == << [Act("p-call") EXCEPT !.q = 12, !.on = 1, !.tag = 50, !.kind = "root"], [Act("a-return") EXCEPT !.tag = 50, !.kind = "ok-nocap"],
             [Act("l-bootstrap") EXCEPT !.h = "boot2", !.cap = 9], [Act("l-call") EXCEPT !.h = "boot2", !.tag = 150] >>
